@@ -298,6 +298,13 @@ pub fn corpus_c15(tier: Tier, seed: u64) -> Vec<(usize, Layout)> {
         }
         v.push(l);
     }
+    // systematic: many fields (const builder chains of up to 128 steps), long range lists, deep nesting
+    for (k, mut l) in crate::corpus::sys_many_fields(Access::RW).into_iter().step_by(tier.pick(2, 1)).chain(crate::corpus::sys_long_lists().into_iter().step_by(tier.pick(3, 1))).chain(crate::corpus::sys_deep_nesting(false)).enumerate() {
+        if !model::rules::builder_expected(&l) && k % 2 == 0 {
+            l.default = Some(DefaultDecl { value: l.base_mask() / 3, named_const: false, radix: 16, const_name: None });
+        }
+        v.push(l);
+    }
     v.into_iter().enumerate().collect()
 }
 
